@@ -95,16 +95,36 @@ def pState : P (Except String (Crystal Float)) := do
   let kindS ← tok
   let shape? ← pShape
   let gtok ← tok
-  -- modifiers of the group token: `p1+` (the single site may be repeated), `p1@Hexagonal` (family of label and cell)
-  let multi := gtok.endsWith "+"
-  let gtok1 := if multi then (gtok.dropRight 1) else gtok
-  let gname := (gtok1.splitOn "@").headD ""
-  let famS? : Option String := match gtok1.splitOn "@" with | [_, f] => some f | _ => none
+  -- modifiers of the group token, each introduced by one mark: `+` (the single site may be repeated),
+  -- `@Family` (family of label and cell), `!name` (the sites' operation list replaced by a custom one),
+  -- `%k` (a descriptive field of the site the model does not have: ignored)
+  let isMark (c : Char) : Bool := c == '@' || c == '+' || c == '%' || c == '!'
+  let cs := gtok.toList
+  let gname := String.ofList (cs.takeWhile (fun c => !isMark c))
+  -- split the rest into (mark, body) segments
+  let rec segs (fuel : Nat) (l : List Char) (acc : List (Char × String)) : List (Char × String) :=
+    match fuel, l with
+    | 0, _ => acc.reverse
+    | _, [] => acc.reverse
+    | fuel + 1, m :: r =>
+      let body := r.takeWhile (fun c => !isMark c)
+      segs fuel (r.dropWhile (fun c => !isMark c)) ((m, String.ofList body) :: acc)
+  let mods := segs cs.length (cs.dropWhile (fun c => !isMark c)) []
+  let multi := mods.any (·.1 == '+')
+  let famS? : Option String := (mods.find? (·.1 == '@')).map (·.2)
+  let custom? : Option String := (mods.find? (·.1 == '!')).map (·.2)
   let fam? : Option (Option Family) := match famS? with
     | none => some none
     | some "Monoclinic" => some (some .Monoclinic) | some "Orthorhombic" => some (some .Orthorhombic)
     | some "Hexagonal" => some (some .Hexagonal) | some "Tetragonal" => some (some .Tetragonal)
     | some _ => none
+  -- operation lists of groups the crate has no table for (the harness has the same three)
+  let mk (a b c d e f : Float) : Mat3 Float := ⟨a, b, c, d, e, f, 0.0, 0.0, 0.0⟩
+  let customOps : Option (List (Mat3 Float)) := custom?.map fun n =>
+    if n == "p4" then [mk 1 0 0 0 1 0, mk 0 (-1) 0 1 0 0, mk (-1) 0 0 0 (-1) 0, mk 0 1 0 (-1) 0 0]
+    else if n == "p3" then [mk 1 0 0 0 1 0, mk 0 (-1) 0 1 (-1) 0, mk (-1) 1 0 (-1) 0 0]
+    else if n == "p4g" then [mk 1 0 0 0 1 0, mk 0 (-1) 0.5 1 0 0.5, mk (-1) 0 0 0 (-1) 0, mk 0 1 0.5 (-1) 0 0.5]
+    else [mk 1 0 0 0 1 0]
   let entry? := Generated.tables.find? (fun e => e.variant == gname.toList)
   let rest : P (Option (Float × Float × Float × List (Float × Float × Float))) := do
     match (← get) with
@@ -138,6 +158,9 @@ def pState : P (Except String (Crystal Float)) := do
           let st0 : Crystal Float := match famOv with
             | none => st0
             | some f => { st0 with family := f, cell := { st0.cell with family := f } }
+          let st0 : Crystal Float := match customOps with
+            | none => st0
+            | some ops => { st0 with sites := st0.sites.map fun s => { s with ops := ops } }
           let st0 : Crystal Float :=
             if multi && st0.sites.length == 1 && sites.length ≥ 2 then
               { st0 with sites := List.replicate sites.length (st0.sites.headD (Site.fromWyckoff [])) }
